@@ -14,7 +14,7 @@ func init() {
 		skeletonExplain(c, "C02 (the mock implements the interface with identical signatures): in every skeleton — the self-check line plays no role in the rule — go/types' MissingMethod(*Mock, I) is nil against an interface declared independently of the template from the same abstract shapes (for generic mocks both are instantiated with the mock's own type parameters, so the verdict holds for every type-argument list satisfying the constraints); every method has exactly one <M>Func field whose signature is identical to the method's, variadic-ness included.")
 		c.Run.Floor("K-IMPL/assignable", 1)
 		c.Run.Floor("K-IMPL/func-field", 2)
-		c.RunSkeletons(SkelOpts{Rules: []string{"K-IMPL", "K-MSET/method", "K-GENERIC", "G-DATA/methods", "G-DATA/params", "G-DATA/results", "G-DATA/typeparams", "G-MOCK/accepts"}})
+		c.RunSkeletons(SkelOpts{Rules: []string{"K-IMPL", "K-MSET/method", "K-GENERIC", "G-DATA/methods", "G-DATA/params", "G-DATA/results", "G-DATA/typeparams", "G-DATA/name-final", "G-MOCK/accepts"}})
 		genMap(c)
 	})
 	register("C09", "other", func(c *Ctx) {
@@ -54,7 +54,7 @@ func init() {
 	register("C01", "other", func(c *Ctx) {
 		skeletonExplain(c, "C01 (generated source compiles in its destination package) — necessary conditions only: (1) every skeleton of the family type-checks in both destination modes, incl. unused/missing imports under every flag combination; (2) import discovery handles every type constructor the type printer can print; (3) every type text is printed with the file's qualifier; (4) template and data model agree (every field chain resolves in some environment, all template nodes are reached); (5) declared-name patterns that can collide.")
 		c.Run.Floor("K-TYPE", 1)
-		c.RunSkeletons(SkelOpts{Rules: []string{"K-TYPE", "K-NAMES", "K-DECLS/extra", "K-MSET/unexpected", "K-MSET/field", "K-IMPORTS", "G-DATA/imports", "G-DATA/pkgname", "G-DATA/src-qualifier", "G-SCOPE", "G-MOCK/qualifier-final"}, Notes: []string{"G-RENDER", "H-PANIC"}, TypeErrIsOwn: true})
+		c.RunSkeletons(SkelOpts{Rules: []string{"K-TYPE", "K-NAMES", "K-DECLS/extra", "K-MSET/unexpected", "K-MSET/field", "K-IMPORTS", "G-DATA/imports", "G-DATA/pkgname", "G-DATA/src-qualifier", "G-DATA/name-final", "G-SCOPE", "G-MOCK/qualifier-final"}, Notes: []string{"G-RENDER", "H-PANIC"}, TypeErrIsOwn: true})
 		c.Run.Floor("G-MOCK/qualifier-final", 1)
 		genCompile(c)
 	})
